@@ -2,6 +2,7 @@
 mod common;
 mod c20;
 mod c07;
+mod c13;
 mod c02;
 mod c19;
 mod c05;
@@ -92,6 +93,7 @@ fn main() {
   let (generate, exec): (fn(u64, bool, &mut Sink) -> Vec<String>, fn(&str) -> String) = match prop {
     "C20" => (c20::generate, c20::exec),
     "C07" => (c07::generate, c07::exec),
+    "C13" => (c13::generate, c13::exec),
     "C02" => (c02::generate, c02::exec),
     "C19" => (c19::generate, c19::exec),
     "C05" => (c05::generate, c05::exec),
